@@ -403,6 +403,9 @@ func hostilePhases(which string) []*fw.Phase {
 		{{Name: "x", Type: "file", Mode: 0644, Body: "OVERWRITE"}},
 		{{Name: "x", Type: "dir", Mode: 0700, Mtime: 1400000000}},
 		{{Name: "xd", Type: "dir", Mode: 0700, Mtime: 1400000000}, {Name: "xd/new", Type: "file", Mode: 0644, Body: "N"}},
+		{{Name: "xd", Type: "dir", Mode: 0700, Mtime: 1400000000}},
+		{{Name: "xd/", Type: "dir", Mode: 0500, Mtime: 1300000000}, {Name: "other", Type: "file", Mode: 0644, Body: "o"}},
+		{{Name: "nope/../xd/through.txt", Type: "file", Mode: 0644, Body: "T"}, {Name: "nope/../x", Type: "file", Mode: 0600, Body: "T"}},
 		{{Name: "xd/f", Type: "file", Mode: 0600, Body: "OVERWRITE"}},
 		{{Name: "cur", Type: "link", Link: "q/b/top/../secret", Mode: 0777}},
 		{{Name: "x", Type: "link", Link: "q/b/top/../sib/keep", Mode: 0777}},
@@ -471,8 +474,31 @@ func hostilePhases(which string) []*fw.Phase {
 	// one of them has to go, whatever else the archive holds
 	several := &fw.Phase{
 		Name: "several-links-led-outside-in-one-archive", Chroot: true, Exhaustive: true,
-		N: func(string) int { return 4 * 3 * nv },
+		N: func(string) int { return 4*3*nv + 3*nv },
 		Run: func(env *fw.Env, idx int) fw.Result {
+			if idx >= 4*3*nv {
+				// (a) a led-outside link whose final place does not exist (yet);
+				// (b) a link that passes through an allow-listed absolute link
+				// and climbs out of the allowed place with ".."
+				k := idx - 4*3*nv
+				b := arenaVariants[k%nv]
+				var es []gen.TarEntry
+				if k/nv == 2 {
+					// (c) several hundred components that follow no link at
+					// all come before the link that leads outside
+					es = []gen.TarEntry{{Name: "q/b", Type: "dir", Mode: 0755}, {Name: "d", Type: "dir", Mode: 0755}, {Name: "q/b/top", Type: "link", Link: "../..", Mode: 0777},
+						{Name: "long-dots", Type: "link", Link: strings.Repeat("./", 300) + "q/b/top/../secret", Mode: 0777},
+						{Name: "long-in-and-out", Type: "link", Link: strings.Repeat("d/../", 150) + "q/b/top/../sib/keep", Mode: 0777},
+						{Name: "long-separators", Type: "link", Link: "q" + strings.Repeat("/", 300) + "b/top/../ro-file", Mode: 0777}}
+				} else if k/nv == 0 {
+					es = []gen.TarEntry{{Name: "q/b", Type: "dir", Mode: 0755}, {Name: "q/b/top", Type: "link", Link: "../..", Mode: 0777}, {Name: "dangling", Type: "link", Link: "q/b/top/../not-there-yet", Mode: 0777}, {Name: "dangling2", Type: "link", Link: "q/b/top/../no/such/dir/f", Mode: 0777}}
+				} else {
+					abs := b.Parent + "/sib"
+					b.Allow = []string{abs}
+					es = []gen.TarEntry{{Name: "a", Type: "link", Link: abs, Mode: 0777}, {Name: "b", Type: "link", Link: "a/..", Mode: 0777}, {Name: "c", Type: "link", Link: "a/../secret", Mode: 0777}}
+				}
+				return runHostile(which, hostileCase{Arena: b, Entries: es})
+			}
 			n := 1 + idx%4
 			tail := (idx / 4) % 3
 			b := arenaVariants[(idx/12)%nv]
